@@ -22,6 +22,10 @@ def obligations(tier):
                       bounds=f"K={k} tempo events built by the real builder over a monotone-UF clock; all tick pairs a<=b"))
         obs.append(Ob(f"C12.timestamp_dataflow.K{k}", "CH", "harness.h_sync", "timestamp_at_tick_dataflow", 240, {"VF_K": k},
                       funcs=(SY + "BPMEvents.timestamp_at_tick",)))
+    obs.append(Ob("C12.long_map.index.K10", "CH", "harness.h_big", "index_big", 900, {"VF_KB": 10}, funcs=(SY + "BPMEvents._index_of_proximal_event",),
+                  bounds="10 tempo events with symbolic ticks, every hint"))
+    obs.append(Ob("C12.anchors_ignored", "CH", "harness.h_extra", "anchors_do_not_move_time", 600, funcs=(SY + "SyncTrack.from_chart_lines",),
+                  bounds="an anchor line with an arbitrary microsecond value never changes any tempo / signature timestamp"))
     for ix in (["0,1"] if tier == "quick" else ["0,1", "7,2", "0,6,1"]):
         obs.append(Ob(f"C12.note_end_after_start[{ix}]", "CH", "harness.h_integrated", "note_section", 900, {"VF_IDX": ix, "VF_ORDER": 0},
                       funcs=(IN + "NoteEvent.from_parsed_data",), bounds="end time = time(tick+longest sustain) >= start"))
